@@ -2,12 +2,17 @@
 
 proof:  coq/Props/Properties_C14.v  (a-priori bound of rounded complex Horner for every coefficient
         list and point; the sparse pairing scheme and the Chebyshev forward recurrence compute the
-        exact value over any commutative ring; secular sum bound in condition-number form; the MP
-        estimate bounds the error under an explicit guard-bit hypothesis)
+        exact value over any commutative ring; secular sum bound in condition-number form and the
+        product form P = -S prod(x-b_i); the estimates as coded: MP Horner and secular product form bound
+        the error under explicit guard-bit hypotheses, the Chebyshev one is refuted and a repaired one
+        proved; binary64: the complex operations of mt.c as coded satisfy the standard model (Flocq);
+        the twin's values and condition bounds are proved for all three bases)
 tie:    harness/c14_eval.c drives mps_polynomial_{f,d,m}eval on generated (input, point, precision)
         and exports value + estimate exactly; bin/eval (extracted from coq/Eval/EvalModel.v) gives the
         exact value and an upper bound of the condition quantity; the property's predicate is
-        evaluated here in exact rational arithmetic.
+        evaluated here in exact rational arithmetic.  Every exported secular / Chebyshev estimate is
+        compared with the modelled estimate formula (sec_est_q / cheb_est_q of the twin): a mismatch
+        is a broken correspondence.  The witness family of C14_chebyshev_estimate_refuted is replayed.
 
 Predicate (u = 2^-53 for double and DPE, u = 2^-wp for multiprecision, wp = mpc_get_prec(x)):
     monomial   |v - p(x)|       <= (K n + 2) u p~(|x|)                         K = 20/9 * (mu/u)   (C14_horner_apriori_linear)
